@@ -1642,3 +1642,12 @@ package gogen
 //@ site gogen.setDenoted own.nodestore 2 reviewed: [Ident.Obj] identifiers renamed or denoted here are per-build nodes (import identifiers of a file, the fresh Sel of a qualified reference, the fresh result of ident()); the shared identifiers (true/false/nil/_/append.../_xgo_ok/_xgo_it) are never stored in an import table and are never the result of toObjectExpr
 //@ site printer.checkSpecs own.nodestore 2 reviewed: [GenDecl.Specs] the declaration node was created for this build by the declaring API (NewTypeDecls, NewVarDefs, NewConstDefs, newValueSpec); the shared GenDecl/ValueSpec live inside the iterator helper statement stmtXGoOkDecl, which is only placed into emitted statement lists and never handed to a declaration-editing function (printer.checkSpecs rewrites only TYPE declarations with a deleted spec; the shared one is a VAR declaration)
 //@ site util.CheckParenExpr own.nodestore 1 reviewed: [SelectorExpr.X] the selector node was built for this operand by selector()/toObjectExpr() in this build; the shared SelectorExpr (exprIterNext[0].Fun) is only ever placed into emitted assignment statements, never on the operand stack
+
+// big integer literals denote exactly the written value: the decimal text handed to big.NewInt (small values) or to
+// SetString (everything else) is the decimal representation of v
+//@ func (*CodeBuilder).UntypedBigInt
+//@ prop C11
+//@ partial
+//@ requires v != nil && p.pkg != nil
+//@ assertcall FormatInt: arg_i == BigVal(v) && arg_base == 10
+//@ assertcall String: arg_recv == v
